@@ -93,7 +93,11 @@ func oracleC08(f *sessionFam, w *World, res *Result) []Violation {
 					if len(w.evs(a, "c-probe-failed")) > 0 {
 						why = "probe failed: " + w.evs(a, "c-probe-failed")[0].S
 					}
-					l.add("conformant-candidate-completes", sp.Upgrade, fmt.Sprintf("%s [%s]: conformant %s candidate started at %v on an open session did not complete the switch by %v (%s)", a, ctx, sp.Upgrade, starts[0].T, f.endAt, why))
+					stage := "probe-never-handled" // the server never emitted 'upgrading': the probe ping reached nobody
+					if len(w.evs(a, "upgrading")) > 0 {
+						stage = "probe-answered-switch-not-completed"
+					}
+					l.add("conformant-candidate-completes", sp.Upgrade+"/"+stage, fmt.Sprintf("%s [%s]: conformant %s candidate started at %v on an open session did not complete the switch by %v (%s)", a, ctx, sp.Upgrade, starts[0].T, f.endAt, why))
 				} else {
 					lim := 100*time.Millisecond + 6*time.Duration(sp.LatencyMs)*time.Millisecond + time.Duration(sp.PollGapMs)*time.Millisecond + 5*time.Millisecond
 					if d := done[0].T - starts[0].T; d > lim {
@@ -268,6 +272,17 @@ func oracleC11(f *sessionFam, w *World, res *Result) []Violation {
 					// y started while x was outstanding and unanswered?
 					if x.SeqWH != 0 && x.SeqWH < yStart {
 						continue // x was already answered (handler about to return): not an overlap at the server
+					}
+					// x was answered after y's handler started but before y was answered: the transport may have
+					// seen them one after the other; a certain overlap is y being answered while x was still pending
+					if x.SeqWH != 0 && y.SeqWH != 0 && x.SeqWH < y.SeqWH {
+						continue
+					}
+					// within one virtual instant the order in which two handlers reach the transport is not
+					// observable from outside: an overlap is certain only if x had been pending since an earlier instant
+					if y.T0 <= x.T0 {
+						w.probe("same_instant_requests_not_judged")
+						continue
 					}
 					ce := closeT[a]
 					if ce != nil && ce.Seq < yStart {
